@@ -103,7 +103,10 @@ def causeStr : Cause → String
   | .noClient => "noclient" | .unknownMethod => "unknownmethod" | .checkError => "checkerror"
   | .notAllowed => "notallowed" | .tooManyModules => "toomanymodules"
 
-def stepApi (m ident store grants wspec extra impl : String) : String :=
+def stepApi (m ident store grants wspec extra implRaw : String) : String :=
+  -- "forbidden+mid": refused, but the resolved authorization-model id of the target store was set as a response header
+  let mid := implRaw = "forbidden+mid"
+  let impl := if mid then "forbidden" else implRaw
   let holder := if ident = "other" then "X" else "C"
   match parseGrants holder grants with
   | none => "SKIP bad-grants"
@@ -174,7 +177,11 @@ def stepApi (m ident store grants wspec extra impl : String) : String :=
           else if impl = "forbidden" ∧ granted ∧ !specPre then
             specViol s!"{m} was denied although the access-control store grants it"
           else if !agrees o impl then modelDiff (outcomeStr o)
-          else ok (m ++ "-" ++ outcomeStr o) (granted || grants ≠ "-")
+          -- the model-id header goes out on a refused call exactly when the typesystem is resolved before the authorizer
+          -- (not observed for the access-control store itself: the authorizer's nested Check sets that header on every call)
+          else if impl = "forbidden" ∧ mid ≠ (typesysBeforeGuard hd.2 && !preFails && store != "r") then
+            modelDiff (if mid then "forbidden (no model-id header expected)" else "forbidden+mid")
+          else ok (m ++ "-" ++ outcomeStr o ++ (if mid then "-modelid-header-exposed" else "")) (granted || grants ≠ "-")
 
 def scriptRes (c : Char) : CheckRes := if c = 'A' then .allowed else if c = 'E' then .error else .denied
 
